@@ -41,6 +41,26 @@ func (g *GenCfg) Next(r *rand.Rand, m *Machine, p *Proj) Act {
 	for {
 		a := 1 + r.Intn(u.NA)
 		k := 1 + r.Intn(u.NS)
+		if r.Intn(8) == 0 {
+			// prefer an existing empty account if there is one: operations that change nothing there
+			// decide whether it counts as touched (EIP-161)
+			for i, x := range p.Acc {
+				if x.Ex && x.Nonce == 0 && x.Bal == 0 && x.Code == 0 {
+					a = i + 1
+					switch r.Intn(4) {
+					case 0:
+						return Act{Op: "SubBalance", A: a, V: 0}
+					case 1:
+						if !feas || x.Nw {
+							return Act{Op: "SetState", A: a, K: k, V: x.St[k-1]}
+						}
+					case 2:
+						return Act{Op: "AddBalance", A: a, V: 0}
+					}
+					break
+				}
+			}
+		}
 		ac := p.Acc[a-1]
 		c := 10 + r.Intn(90)
 		switch {
@@ -155,9 +175,9 @@ func (u *Universe) RandomWorld(r *rand.Rand, maxCode int) World {
 	w := make(World, u.NA)
 	for i := range w {
 		ac := Account{St: make([]int64, u.NS)}
-		switch r.Intn(6) {
+		switch r.Intn(7) {
 		case 0, 1: // absent
-		case 2: // empty account (pre EIP-158 leftover)
+		case 2, 6: // empty account (pre EIP-158 leftover)
 			ac.Ex = true
 		case 3: // funded EOA
 			ac.Ex, ac.Bal = true, int64(1+r.Intn(50))
